@@ -88,7 +88,7 @@ package router
 //@ func (b *broker) trySend
 //@   nonblocking
 //@   props C01 C07
-//@   requires b != nil && !isnil(b.log) && sess != nil && !isnil(sess.Peer) && !isnil(msg)
+//@   requires b != nil && !isnil(b.log) && sess != nil && !isnil(sess.Peer) && wellformed(msg)
 //@   modifies ghost sendcount
 //@   ensures [one-attempt] sendcount(sendChan(sess)) == old(sendcount(sendChan(sess))) + 1
 //@   ensures [others] forall c mathint :: c != sendChan(sess) ==> sendcount(c) == old(sendcount(c))
@@ -509,7 +509,7 @@ package router
 //@ func (d *dealer) trySend
 //@   nonblocking
 //@   props C02 C03 C07
-//@   requires d != nil && !isnil(d.log) && sess != nil && !isnil(sess.Peer) && !isnil(msg)
+//@   requires d != nil && !isnil(d.log) && sess != nil && !isnil(sess.Peer) && wellformed(msg)
 //@   modifies ghost sendcount
 //@   ensures [one-attempt] sendcount(sendChan(sess)) == old(sendcount(sendChan(sess))) + 1
 //@   ensures [others] forall c mathint :: c != sendChan(sess) ==> sendcount(c) == old(sendcount(c))
@@ -865,6 +865,7 @@ package router
 //@   sendsite action : [no-restricted-procedure] ch == d.actionChan ==> !(hasPrefix(string(msg.Procedure), "wamp.") && callee.ID != metaID)
 //@   sendsite action : [disclose-caller-only-if-allowed] ch == d.actionChan ==> !disclose || d.allowDisclose || old(trustedRole(callee))
 //@   callsite Send : [meta-peer-set] assume !isnil(d.metaPeer)
+//@   callsite Send : [meta-publications-are-messages] assume pub != nil
 //@   callsite trySend : [errors-to-requester] arg1 == callee && is(arg2, *wamp.Error) && arg2.(*wamp.Error).Type == wamp.REGISTER && arg2.(*wamp.Error).Request == msg.Request
 //@   callsite trySend : [invalid-uri] !validProc(d, msg.Procedure, match) || (hasPrefix(string(msg.Procedure), "wamp.") && callee.ID != metaID) ==> arg2.(*wamp.Error).Error == wamp.ErrInvalidURI
 
@@ -881,6 +882,7 @@ package router
 //@   props C03
 //@   requires d != nil && callee != nil && !isnil(callee.Peer) && msg != nil
 //@   callsite Send : [meta-peer-set] assume !isnil(d.metaPeer)
+//@   callsite Send : [meta-publications-are-messages] assume pub != nil
 
 //@ closure (d *dealer) unregister 1
 //@   on dealer
@@ -949,6 +951,7 @@ package router
 //@   props C05
 //@   requires d != nil
 //@   callsite Send : [meta-peer-set] assume !isnil(d.metaPeer)
+//@   callsite Send : [meta-publications-are-messages] assume pub != nil
 
 //@ closure (d *dealer) removeSession 1
 //@   on dealer
@@ -1013,7 +1016,6 @@ package router
 //@   props C05 C10
 //@   returnsite : [shutdown-only-for-the-realms-own-goodbye] result0 ==> goodbye == shutdownGoodbye || goodbye == wamp.NoGoodbye
 //@   requires r != nil && r.broker != nil && r.dealer != nil && !isnil(r.log) && !isnil(r.broker.log) && !isnil(r.dealer.log) && r.broker.filterFactory != nil && sess != nil && !isnil(sess.Peer)
-//@   recvsite wamp.Message : [peers-deliver-well-formed-messages] assume wfMessage(m)
 //@   callsite Goodbye : [goodbye-set-before-done-closes] assume-after result != nil
 //@   callsite publish : [gate] arg1 == sess && (isnil(r.authorizer) || sess == r.metaSess || authzAllowed(r, sess, box(arg2)))
 //@   callsite subscribe : [gate] arg1 == sess && (isnil(r.authorizer) || sess == r.metaSess || authzAllowed(r, sess, box(arg2)))
@@ -1233,6 +1235,7 @@ package router
 //@   props C04
 //@   requires r != nil
 //@   recvsite wamp.Message : [meta-client-receives-invocations-or-goodbye] assume (is(m, *wamp.Invocation) && m.(*wamp.Invocation) != nil) || is(m, *wamp.Goodbye)
+//@   callsite <dynamic> : [meta-procedures-answer-with-a-message] assume-after wellformed(result)
 
 // Sessions stored in the realm's client table were attached by AttachClient,
 // which gives each of them a details dictionary before handing it over.
